@@ -381,7 +381,11 @@ IdMap(s) ==
       [] s = "amount"  -> [s1 |-> "A1", s2 |-> "A1_amount"]
       [] s = "math"    -> [s1 |-> "exp", s2 |-> "sin", k1 |-> "e", k2 |-> "abs", v |-> "max", r1 |-> "math", c1 |-> "log", f |-> "sqrt"]
       [] s = "formal"  -> [s1 |-> "b", s2 |-> "a", k1 |-> "x", k2 |-> "y"]
-AllSchemes == {"plain", "sympy", "keyword", "kwcomp", "under", "ucomp", "caps", "amount", "math", "formal"}
+      \* ids that are the names the importer GENERATES for its helper functions (init_<symbol>,
+      \* <reaction>_stoich_<species>) or that the generated module uses itself
+      [] s = "helper"  -> [v |-> "init_kia", r2 |-> "r1_stoich_s1", k2 |-> "init_s1", sr |-> "r1_stoich_s2"]
+      [] s = "modnames" -> [v |-> "create_model", r2 |-> "Model", k1 |-> "Derived", sr |-> "InitialAssignment", sq |-> "scipy"]
+AllSchemes == {"plain", "sympy", "keyword", "kwcomp", "under", "ucomp", "caps", "amount", "math", "formal", "helper", "modnames"}
 
 Nm(n) == IF n \in DOMAIN IdMap(scheme) THEN IdMap(scheme)[n] ELSE n
 RECURSIVE RenE(_)
